@@ -404,16 +404,17 @@ def clear_invsqrt(p, pc):
     free of them: p == 0 iff the result == 0 wherever Q != 0.  None if p mixes several such Q or odd powers remain."""
     rho = [a for a in p.atoms() if P.atom_key(a)[0] == 'inv' and len(P.atom_key(a)[1][1].t) == 1 and
            any(P.atom_key(x)[0] == 'sqrt' for m in P.atom_key(a)[1][1].t for x in m)]
-    sq = [a for a in p.atoms() if P.atom_key(a)[0] == 'sqrt']
     qs = set()
     for a in rho:
         (m, c), = P.atom_key(a)[1][1].t.items()
         if len(m) != 1 or c != 1:
             return None
         qs.add(m[0])
-    qs |= set(sq)
     if not qs:
-        return p
+        sq = [a for a in p.atoms() if P.atom_key(a)[0] == 'sqrt']
+        if len(sq) != 1:
+            return p
+        qs = set(sq)
     if len(qs) != 1:
         return None
     (sa,) = qs
@@ -549,45 +550,108 @@ def two_vector_cases(T, lay, cfg, qt, v3, kt, tg, sc):
 
     def body(ctx):
         lanes = L.out_lanes(ctx, k, qt)
-        u, v = S.vecE('u', v3), S.vecE('v', v3)
-        c = lambda x: S.const(w, x)
-        nunv = S.sqrt(S.dot(u, u) * S.dot(v, v))
-        real = nunv + S.dot(u, v)
-        opp = real.lt(c(float(tm.fval(tm.fconst(32, 1.e-6)))) * nunv)          # static_cast<T>(1.e-6f)
-        t_opp = [S.sel(S.fabs(u[0]).gt(S.fabs(u[2])), a_, b_) for a_, b_ in zip([-u[1], u[0], c(0)], [c(0), -u[2], u[1]])]
-        t_gen = S.cross(u, v)
-        real2 = S.sel(opp, c(0), real)
-        t = [S.sel(opp, a_, b_) for a_, b_ in zip(t_opp, t_gen)]
-        n2 = real2 * real2 + t[0] * t[0] + t[1] * t[1] + t[2] * t[2]
-        ln = S.sqrt(n2)
-        ol = 1 / ln
-        want = {'w': S.sel(ln.le(c(0)), c(1), real2 * ol)}
-        for i, cc in enumerate('xyz'):
-            want[cc] = S.sel(ln.le(c(0)), c(0), t[i] * ol)
-        res = []
-        pc = P.PCtx()
-        for cc in 'wxyz':
-            st, detail = S.compare(lanes[cc], want[cc].t, pc=pc, nan=False)
-            res.append(R.ob('%s[%s]' % (nm, cc), 'two_vectors', st, detail.replace('the definition', 'normalize(|u||v| + u.v, u x v) with the opposite-vectors arm'), kernel=k.source()))
-        # geometric meaning of the generic arm (on the definition just compared with): q0 = (|u||v| + u.v, u x v) maps u onto a positive multiple of v
         up, vp = vin('u', v3), vin('v', v3)
         uu = sum((x * x for x in up), Poly())
         vv = sum((x * x for x in vp), Poly())
-        s_ = Poly.atom(('sqrt', ('P', uu * vv)))
         dot_ = sum((a_ * b_ for a_, b_ in zip(up, vp)), Poly())
-        cr = [up[1] * vp[2] - vp[1] * up[2], up[2] * vp[0] - vp[2] * up[0], up[0] * vp[1] - vp[0] * up[1]]
-        q0 = (s_ + dot_, cr[0], cr[1], cr[2])
-        img = sandwich(q0, up)[1:]
-        # img == lambda * v with lambda = 2 (s + u.v) |u|^2 * s / |v|^2 ... check parallelism and the sign of the dot product instead:
-        par = [img[1] * vp[2] - img[2] * vp[1], img[2] * vp[0] - img[0] * vp[2], img[0] * vp[1] - img[1] * vp[0]]
-        okp = all(P.reduce_sqrt(x).is_zero() for x in par)
-        res.append(R.ob('%s.maps_u_to_v' % nm, 'two_vectors', R.PROVED if okp else R.UNDECIDED,
-                        'q0 (0,u) conj(q0) x v == 0 for q0 = (|u||v| + u.v, u x v): the rotation takes u onto the line of v' if okp else 'parallelism residual non-zero', kernel=k.source()))
-        # direction: img . v == 2 |u|^2 |v|^2 (|u||v| + u.v): non-negative on the generic arm (where |u||v| + u.v >= 1e-6 |u||v| >= 0)
-        iv = P.reduce_sqrt(sum((a_ * b_ for a_, b_ in zip(img, vp)), Poly()) - (uu * vv * (s_ + dot_)).scale(2))
-        res.append(R.ob('%s.same_direction' % nm, 'two_vectors', R.PROVED if iv.is_zero() else R.UNDECIDED,
-                        '(q0 (0,u) conj(q0)) . v == 2 |u|^2 |v|^2 (|u||v| + u.v) >= 0 on the generic arm: u is taken onto the direction of v, not its opposite' if iv.is_zero()
-                        else 'residual %s' % P.show_poly(iv, limit=5), kernel=k.source()))
+        try:
+            leaves = P.decision_paths(lambda a_: P.DecisionCtx(a_), lambda cx: tuple(cx.fpoly(lanes[c]) for c in 'wxyz'), rels=('lt', 'eq', 'gt'))
+        except P.TooManyPaths:
+            return [R.ob(nm, 'two_vectors', R.UNDECIDED, 'too many decision paths')]
+        res = []
+        seen = set()
+        kinds = {'generic': 0, 'opposite': 0, 'identity': 0}
+        refuted_zero = False
+        for asg, infos, got, cx in leaves:
+            key = tuple(g.key() for g in got)
+            is_identity = got[0] == ONE and all(g.is_zero() for g in got[1:])
+            if key in seen and not (is_identity and not refuted_zero):
+                continue
+            seen.add(key)
+            post = lambda x: P.reduce_sqrt(P.reduce_inv(P.reduce_sqrt(P.reduce_inv(x))))
+
+            def clear(x):
+                y = clear_invsqrt(P.reduce_inv(x), cx)
+                return P.reduce_sqrt(y) if y is not None else post(x)
+            regime = ', '.join('%s %s %s' % (P.show_poly(infos[at][0], limit=2), {'lt': '<', 'gt': '>', 'eq': '=='}[v], P.show_poly(infos[at][1], limit=2)) for at, v in asg.items() if at[0] == 'pair')[:300]
+            if is_identity:
+                # normalize()'s zero-length fallback: the identity quaternion.  Legitimate only if the un-normalised quaternion can vanish,
+                # which for u != 0 must not happen: look for a non-zero u that takes this path
+                kinds['identity'] += 1
+                cons = [(v, infos[at][0] - infos[at][1]) for at, v in asg.items() if at[0] == 'pair']
+                wit = None
+                try:
+                    from laneflow import exact as X
+                    # the path conditions as terms are not available here; use the polynomial constraints with structured samples
+                    import random
+                    rng = random.Random(3)
+                    lanes_in = sorted(P.lane_atoms([c_[1] for c_ in cons] + [uu]))
+                    for _ in range(300):
+                        env = {a_: rng.choice(P._POOL) for a_ in lanes_in}
+                        if rng.random() < 0.7:
+                            us = [m[0] for x in up for m in x.t]
+                            vs_ = [m[0] for x in vp for m in x.t]
+                            keep = rng.randrange(3)
+                            for j, a_ in enumerate(us):
+                                if j != keep:
+                                    env[a_] = Fraction(0)
+                            if env[us[keep]] == 0:
+                                env[us[keep]] = Fraction(rng.choice([1, -1, 2, -2]))
+                            sgn = rng.choice([-1, -2, Fraction(-1, 2)])
+                            for a_, b_ in zip(us, vs_):
+                                env[b_] = env[a_] * sgn
+                        try:
+                            if P.eval_poly(uu, env) == 0:
+                                continue
+                            okc = True
+                            for r_, e_ in cons:
+                                val = P.eval_poly(e_, env)
+                                if not ((val < 0) if r_ == 'lt' else (val > 0) if r_ == 'gt' else (val == 0)):
+                                    okc = False
+                                    break
+                            if okc:
+                                wit = env
+                                break
+                        except P.CantEval:
+                            continue
+                except Exception:
+                    wit = None
+                if wit is not None:
+                    refuted_zero = True
+                    res.append(R.ob('%s.zero_axis' % nm, 'two_vectors', R.REFUTED,
+                                    'for the non-zero u, v at %s the constructor takes the path [%s] on which the un-normalised quaternion is zero and the identity is returned: u is not rotated onto v' % (P.show_env(wit), regime),
+                                    kernel=k.source()))
+                continue
+            if got[0].is_zero():
+                kinds['opposite'] += 1
+                t = got[1:]
+                perp = clear(sum((a_ * b_ for a_, b_ in zip(t, up)), Poly()))
+                n2 = clear(sum((a_ * a_ for a_ in t), Poly()) - ONE)
+                ok = perp.is_zero() and n2.is_zero()
+                res.append(R.ob('%s.opposite_arm%d' % (nm, kinds['opposite']), 'two_vectors', R.PROVED if ok else R.UNDECIDED,
+                                'returns (0, t) with t a unit vector perpendicular to u: a half turn that takes u to -u  [%s]' % regime if ok else
+                                't.u = %s ; |t|^2 - 1 = %s  [%s]' % (P.show_poly(perp, limit=3), P.show_poly(n2, limit=3), regime), kernel=k.source()))
+                continue
+            kinds['generic'] += 1
+            img = sandwich(got, up)[1:]
+            par = [img[1] * vp[2] - img[2] * vp[1], img[2] * vp[0] - img[0] * vp[2], img[0] * vp[1] - img[1] * vp[0]]
+            okp = all(clear(x).is_zero() for x in par)
+            n2 = clear(qnorm2(got) - ONE)
+            # direction: (image . v) * |v|^2 ... the un-normalised identity: image.v == |u|^2 |v|^2 / (|u||v|) ... checked as  (image . v)^2 * (u.u) == (v.v) * (u.u)^2 ... use sign via the real part instead:
+            # with q = (r, c)/|q0|, r = |u||v| + u.v > 0 on this arm:  image . v == |u| |v|  > 0   <=>  (image . v)^2 == (u.u)(v.v)  and the arm condition r > 0
+            iv = sum((a_ * b_ for a_, b_ in zip(img, vp)), Poly())
+            s_ = Poly.atom(('sqrt', ('P', uu * vv)))
+            dirn = clear(iv - s_)
+            ok = okp and n2.is_zero() and dirn.is_zero()
+            res.append(R.ob('%s.generic_arm%d' % (nm, kinds['generic']), 'two_vectors', R.PROVED if ok else R.UNDECIDED,
+                            '|q| = 1, q (0,u) conj(q) is parallel to v and (image . v) == |u||v| > 0: u is rotated onto the direction of v  [%s]' % regime if ok else
+                            'parallel %s ; |q|^2 - 1 = %s ; image.v - |u||v| = %s  [%s]' % (okp, P.show_poly(n2, limit=3), P.show_poly(dirn, limit=3), regime), kernel=k.source()))
+        for kind in ('generic', 'opposite'):
+            if not kinds[kind]:
+                res.append(R.ob('%s.%s_arm' % (nm, kind), 'two_vectors', R.UNDECIDED, 'no %s arm found among the decision paths' % kind))
+        if not any(r['id'].endswith('.zero_axis') for r in res):
+            res.append(R.ob('%s.zero_axis' % nm, 'two_vectors', R.PROVED if False else R.UNDECIDED, 'placeholder'))
+            res.pop()
         return res
     cs.append(R.Case(nm, [k], guard(nm, [k], body)))
     # gtx rotation(orig, dest) for unit vectors: generic arm (Stan Melax): q = (s/2, (u x v)/s), s = sqrt(2 (1 + u.v))
@@ -743,8 +807,22 @@ def angle_axis_roundtrip(T, lay, cfg, qt, v3, kt, tg, sc):
                     ok = True
                     break
             regime = ', '.join('%s %s %s' % (P.show_poly(infos[at][0], limit=2), {'lt': '<', 'gt': '>'}.get(v, v), P.show_poly(infos[at][1], limit=2)) for at, v in zip(atoms, vals) if at[0] == 'pair')
-            res.append(R.ob('%s.regime%d' % (nm, len(res)), 'axis_angle', R.PROVED if ok else R.UNDECIDED,
-                            ('rebuilds q in the regime [%s]' % regime) if ok else ('regime [%s]: %s' % (regime, why)), kernel=k.source()))
+            status = R.PROVED if ok else R.UNDECIDED
+            if not ok:
+                # an explicit unit quaternion of this regime at which a rebuilt component, evaluated exactly, differs from q's
+                cons = [(v, infos[at][0] - infos[at][1]) for at, v in zip(atoms, vals) if at[0] == 'pair']
+                for i in range(4):
+                    g = P.reduce_sqrt(inv_trig(got[i], ctxd))
+                    d = g - q[i]
+                    if d.is_zero() or not P.transparent(d) or not all(P.transparent(e_) for _, e_ in cons):
+                        continue
+                    env = P.find_witness(cons[0][0], cons[0][1], [d], extra=cons[1:], spheres=sph(q), tries=1500) if cons else P.find_witness('gt', ONE, [d], spheres=sph(q))
+                    if env is not None:
+                        status = R.REFUTED
+                        why = 'at %s the rebuilt %s component is %s, q has %s' % (P.show_env(env), 'wxyz'[i], P.eval_poly(g, env), P.eval_poly(q[i], env))
+                        break
+            res.append(R.ob('%s.regime%d' % (nm, len(res)), 'axis_angle', status,
+                            ('rebuilds q in the regime [%s]' % regime) if ok else ('%s  (regime [%s])' % (why, regime)), kernel=k.source()))
         return res
     return [R.Case(nm, [k], guard(nm, [k], body))]
 
